@@ -1115,7 +1115,8 @@ mod repr {
 
     fn to_f32_small(dword: DoubleWord) -> Approximation<f32, Sign> {
         let f = dword as f32;
-        if f.is_infinite() {
+        if f.is_infinite() || f == DoubleWord::MAX as f32 {
+            // rounded up to 2^BITS (or overflowed): the cast back below would saturate
             return Inexact(f, Sign::Positive);
         }
 
